@@ -92,7 +92,7 @@ def case(spec):
         info = {}
         surfaces = None
         if kind == 'valid':
-            sub = idx % 4
+            sub = idx % 5
             if sub == 0:
                 img = make_image(rng, tmp, maxlen_sectors=10)
                 path, surfaces, drives = img.path, img.surfaces, img.drives
@@ -113,6 +113,23 @@ def case(spec):
                 write_file(path, data)
                 drives = [0, 2][:sides]
                 res.seen('flux_kinds', fk)
+            elif sub == 4:
+                # a two-sided container of which only the first side carries a file system (the other is blank,
+                # never formatted, or noise): how the geometry is settled must not depend on the diagnostics
+                ext = rng.choice(['dsd', 'dsd', 'ddd'])
+                spt = 10 if ext == 'dsd' else 18
+                tr = rng.choice([80, 80, 40])
+                s0 = dm.gen_surface(rng, variant=rng.choice(['acorn', 'watford']), spt=spt, sid=0, maxlen_sectors=10, tracks=tr,
+                                    total=tr * spt if tr * spt <= 1023 else None)
+                blank = rng.choice([b'\0', b'\xe5', None])
+                side1 = (blank * (s0.nsectors * 256)) if blank else rng.randbytes(s0.nsectors * 256)
+                a0 = s0.image()
+                tb = spt * 256
+                raw2 = b''.join(a0[t * tb:(t + 1) * tb] + side1[t * tb:(t + 1) * tb] for t in range(s0.tracks))
+                path = os.path.join(tmp, 'b.' + ext)
+                write_file(path, raw2)
+                surfaces, drives = [s0], [0]
+                res.add('blank_second_side_images', 1)
             else:
                 slots = {}
                 surfaces = []
